@@ -92,6 +92,9 @@ var cornerBookGames = []struct{ prefix, illegal string }{
 
 var badTokens = []string{"e2e5", "a1a1", "h7h5", "e1e8", "b1c4", "d2d5"}
 
+// unreadableTokens are no moves in any of the formats.
+var unreadableTokens = []string{"g1i3", "0000", "zzzz", "xx", "i9"} // (no move hidden inside: a lenient reader may find one in a token like e9e4)
+
 // GenBook generates a book build scenario (C19).
 func GenBook(seed uint64) *Scenario {
 	rng := NewPRNG(seed, "book")
@@ -109,13 +112,24 @@ func GenBook(seed uint64) *Scenario {
 			for i := 0; i < at; i++ {
 				_ = p.Play(g[i])
 			}
-			if ill := p.PseudoIllegalMoves(); len(ill) > 0 && rng.Chance(0.6) {
+			if rng.Chance(0.2) {
+				// not a move at all: the line still contributes its prefix only
+				tok = unreadableTokens[rng.Intn(len(unreadableTokens))]
+			} else if ill := p.PseudoIllegalMoves(); len(ill) > 0 && rng.Chance(0.6) {
 				// a move that obeys the piece's movement rule but leaves the king in check
 				tok = ill[rng.Intn(len(ill))].String()
 			}
 			if !p.IsLegal(tok) {
 				bs.Bad = append(bs.Bad, BadMove{Game: gi, At: at, Token: tok})
 			}
+		}
+	}
+	if rng.Intn(100) < 3 {
+		// one very long game (longer than any recorded game, still within the
+		// 640 plies the engine's move history holds - see DESIGN.md)
+		p := rules.MustFen(rules.StartFen)
+		if g := Playout(p, rng.Range(450, 600), rng); len(g) >= 450 {
+			bs.Games = append(bs.Games, g)
 		}
 	}
 	if rng.Intn(100) < 15 {
